@@ -64,6 +64,11 @@ CHECKS = [
   'level': 'For all frequencies (non-resonant) and coefficient values: every removable monomial of degree 3..N vanishes identically after the transform, H2 is untouched, H_new = H_old o Phi with the code\'s own forward series, '
            '{Phi_i, Phi_j} = J_ij and Phi^-1 o Phi = id to the stated order.',
   'note': 'elimination N <= 5 (6 thorough), composition obligations N <= 4 (5 thorough); H3, H4 supports of 7 symbolic coefficients (two supports, one seeded); non-resonance and generic-side cleaning assumed; degrees 7..10 outside'},
+ {'id': 'C16',
+  'technique': 'symbolic execution of the three sub-maps on a polynomial Hamiltonian with symbolic coefficients; Jacobians by engine differentiation; M^T J M = J, inverse and generator identities decided by z3 on normal forms (sin/cos atoms with s^2 = 1 - c^2); recorded composition structure and triple-jump condition',
+  'level': 'For all extended states, sub-steps, coupling constants and coefficient values each sub-map is symplectic for dQ^dP + dX^dY, exactly reversible, and generated by its part of the extended Hamiltonian, which restricts to H on the diagonal; '
+           'the order-2 scheme is the palindromic composition; the triple-jump fractions of orders 4, 6, 8 are checked against the order condition.',
+  'note': 'H of degree <= 3 with 9 symbolic coefficients; composition/symmetry theorems lift sub-map facts to the full step; KNOWN FINDING: the triple-jump constant uses the outer order (orders 4, 6, 8 do not reach their declared order); long-time energy behaviour outside'},
 ]
 _BUILT = {c['id'] for c in CHECKS}
 NOT_APPLICABLE = [
